@@ -314,3 +314,131 @@ func sameObjExpr(info *types.Info, a, b ast.Expr) bool {
 	}
 	return false
 }
+
+// ---- facts that dominate a statement (syntactic, structured control flow) ----
+
+// dominatedBy reports whether some branch condition that is known to have a
+// definite truth value at `at` satisfies implies(cond, truth). Known
+// conditions are: each conjunct of an enclosing `if` (true in its body), each
+// disjunct of an enclosing if's condition (false in its else branch), and
+// each disjunct of an earlier sibling `if` without else whose body always
+// leaves (false afterwards), on every enclosing block level up to the
+// function. A fact about one of `objs` is dropped when a statement between
+// the test and `at` assigns that object.
+func (w *World) dominatedBy(info *types.Info, at ast.Node, objs []types.Object, implies func(cond ast.Expr, truth bool) bool) bool {
+	assigns := func(n ast.Node) bool {
+		if len(objs) == 0 || n == nil {
+			return false
+		}
+		found := false
+		ast.Inspect(n, func(x ast.Node) bool {
+			switch s := x.(type) {
+			case *ast.FuncLit:
+				return false
+			case *ast.AssignStmt:
+				for _, l := range s.Lhs {
+					o := objOf(info, l)
+					for _, q := range objs {
+						if o != nil && o == q {
+							found = true
+						}
+					}
+				}
+			case *ast.IncDecStmt:
+				o := objOf(info, s.X)
+				for _, q := range objs {
+					if o != nil && o == q {
+						found = true
+					}
+				}
+			}
+			return !found
+		})
+		return found
+	}
+	var child ast.Node = at
+	for p := w.Parent(at); p != nil; child, p = p, w.Parent(p) {
+		switch x := p.(type) {
+		case *ast.FuncDecl, *ast.FuncLit:
+			return false
+		case *ast.IfStmt:
+			if child == ast.Node(x.Body) {
+				for _, cj := range conjuncts(x.Cond) {
+					if implies(cj, true) {
+						return true
+					}
+				}
+			} else if x.Else != nil && child == ast.Node(x.Else) {
+				for _, dj := range disjuncts(x.Cond) {
+					if implies(dj, false) {
+						return true
+					}
+				}
+			}
+		case *ast.BlockStmt, *ast.CaseClause:
+			var list []ast.Stmt
+			if b, ok := x.(*ast.BlockStmt); ok {
+				list = b.List
+			} else {
+				list = x.(*ast.CaseClause).Body
+			}
+			idx := -1
+			for i, s := range list {
+				if ast.Node(s) == child {
+					idx = i
+				}
+			}
+			for i := 0; i < idx; i++ {
+				ifs, ok := list[i].(*ast.IfStmt)
+				if !ok || ifs.Else != nil || !terminates(ifs.Body.List) {
+					continue
+				}
+				hit := false
+				for _, dj := range disjuncts(ifs.Cond) {
+					if implies(dj, false) {
+						hit = true
+					}
+				}
+				if !hit {
+					continue
+				}
+				killed := false
+				for j := i + 1; j < idx; j++ {
+					if assigns(list[j]) {
+						killed = true
+					}
+				}
+				if !killed {
+					return true
+				}
+			}
+		}
+	}
+	return false
+}
+
+// nilFact builds an implies-function: "the expression matched by isX is nil
+// (wantNil) / non-nil (!wantNil)".
+func nilFact(info *types.Info, isX func(ast.Expr) bool, wantNil bool) func(ast.Expr, bool) bool {
+	return func(cond ast.Expr, truth bool) bool {
+		cond = unparen(cond)
+		if u, ok := cond.(*ast.UnaryExpr); ok && u.Op == token.NOT {
+			cond, truth = unparen(u.X), !truth
+		}
+		be, ok := cond.(*ast.BinaryExpr)
+		if !ok || (be.Op != token.EQL && be.Op != token.NEQ) {
+			return false
+		}
+		x := be.X
+		if isNilIdent(info, be.X) {
+			x = be.Y
+		} else if !isNilIdent(info, be.Y) {
+			return false
+		}
+		if !isX(unparen(x)) {
+			return false
+		}
+		isNil := (be.Op == token.EQL) == truth
+		return isNil == wantNil
+	}
+}
